@@ -728,6 +728,10 @@ def sliced_fragment(repo, spec):
         other = py2v.find_function(tree, qual)
         need([ast.unparse(s) for s in _nodoc(other)].count(r) == 1,
              f"statement `{r.splitlines()[0]}` no longer present (once) at the top level of {fname}")
+    # statements (at any depth of the function) that hand-written model definitions transcribe: exact text, exact count
+    every = [ast.unparse(n) for n in ast.walk(fn) if isinstance(n, ast.stmt)]
+    for r, count in spec.get("requires_nested", []):
+        need(every.count(r) == count, f"statement `{r[:70]}` occurs {every.count(r)} times in {spec['func']}, expected {count}")
     stmts = [_AttrTargets().visit(copy.deepcopy(s)) for s in picked]
     args = ", ".join(spec["params"])
     short = spec["func"].split(".")[-1]
